@@ -14,7 +14,6 @@ use crate::spec::*;
 const LOOKALIKES: &[&str] = &["Some", "None", "Ok", "Err", "Default", "Const", "Type", "Box", "Self_", "String", "Vec", "Option", "Map", "PHF", "Entry", "OrderedMap", "phf"];
 const ODD_FIELD_NAMES: &[&str] = &["f", "fmt", "field0", "xx", "v", "prop", "func", "idx", "r#type"];
 const REPR_INTS: &[&str] = &["u8", "u16", "u32", "u64", "usize", "i8", "i16", "i32", "i64", "isize"];
-const KEYWORDS: &[&str] = &["type", "fn", "match", "Self", "crate", "self", "super", "async", "dyn"];
 
 fn plain_ident(s: &str) -> bool {
     let mut cs = s.chars();
@@ -45,7 +44,7 @@ pub fn reasons(e: &EnumSpec) -> Vec<String> {
     no(!e.macro_args.is_empty(), "item produced by macro_rules");
     no(e.generic_defaults, "generic parameter defaults");
     no(e.base_const.is_some(), "typed constant in discriminants");
-    no(e.noise.iter().any(|(_, t)| !(t.starts_with("///") || t.starts_with("#[allow"))), "noise attributes");
+    // (attributes of the language itself - docs, lints, #[non_exhaustive], #[must_use], #[derive(Default)] - are ordinary)
     no(e.variants.is_empty() || e.variants.len() > 12, "variant count");
     no(LOOKALIKES.contains(&e.type_name().as_str()), "type name");
     if let Some(rp) = &e.repr {
@@ -69,7 +68,6 @@ pub fn reasons(e: &EnumSpec) -> Vec<String> {
         no(v.fields.len() > 3, "field count");
         no(v.fields.iter().any(|f| f.name.as_deref().map_or(false, |n| ODD_FIELD_NAMES.contains(&n))), "field name");
         no(v.disabled() && v.is_default(), "disabled default variant");
-        no(!v.noise.iter().all(|t| t.starts_with("///")), "variant noise attributes");
         if let Some(d) = &v.disc {
             no(d.text.contains("BASE") || d.text.contains('$'), "discriminant expression");
         }
@@ -87,7 +85,7 @@ pub fn reasons(e: &EnumSpec) -> Vec<String> {
                 VAttr::Message(s) | VAttr::Detailed(s) => no(!plain_text(s), "message text"),
                 VAttr::Props(ps) => {
                     for (k, val) in ps {
-                        no(!k.chars().all(|c| c.is_ascii_alphanumeric() || c == '_') || KEYWORDS.contains(&k.as_str()) || k.starts_with('_'), "property key");
+                        no(!k.chars().all(|c| c.is_ascii_alphanumeric() || c == '_') || k.starts_with('_'), "property key");
                         if let PropVal::Str(s) = val {
                             no(!plain_text(s), "property text");
                         }
